@@ -35,6 +35,10 @@ pub enum Cause {
     KeepAliveClose,
     /// backend answers only after this many ms (longer than back_timeout)
     SlowAnswer(u64),
+    /// the only backend refuses connections at first (the victim gets 503) and starts listening this many ms after the
+    /// start of the run; later clients, each on a fresh connection, must all be served (the back-off that followed the
+    /// refusal has expired, and a successful connect ends it)
+    Recovers(u64),
 }
 
 #[derive(Clone, Debug, Serialize, Deserialize)]
@@ -107,7 +111,8 @@ pub fn generate(seed: u64, tier: Tier, forced: Option<(Cause, BodySpec)>) -> Pla
     let head_len = rendered.windows(4).position(|w| w == b"\r\n\r\n").map(|p| p + 4).unwrap_or(rendered.len());
     let resp_len = rendered.len();
     let cause = if is_forced { cause } else {
-        match rng.below(16) {
+        match rng.below(17) {
+            16 => Cause::Recovers(*rng.pick(&[2000u64, 3000])),
             0 => Cause::NoRoute,
             1 => Cause::Denied,
             2 => Cause::NoBackend,
@@ -144,8 +149,33 @@ pub fn generate(seed: u64, tier: Tier, forced: Option<(Cause, BodySpec)>) -> Pla
         Cause::ClientStall(_) => { deadline += knobs.request_timeout as u64 * SEC; }
         Cause::KeepAliveClose => {}
         Cause::SlowAnswer(ms) => { vresp.delay_ns = ms * MS; deadline += ms * MS; }
+        Cause::Recovers(_) => {}
     }
     let mut vresponses = std::collections::BTreeMap::new();
+    let mut listen_from = 0u64;
+    if let Cause::Recovers(ms) = &cause {
+        listen_from = 1000 * SEC + ms * MS;
+        // the victim goes first and at once, so that it certainly meets the closed port
+        clients[0].requests.clear();
+        clients[0].pace = Pace::greedy();
+        clients[0].start_ns = 0;
+        // the recovered backend is reached under a second host name of the same cluster: these requests are ordinary
+        // clean traffic for the C01 oracle (cluster index 1)
+        extra_frontends.push(("c1.test".to_string(), Some("cv".to_string())));
+        let mut at = ms * MS + (50 + rng.below(250)) * MS;
+        for k in 0..(2 + rng.below(3)) {
+            let id = vid + 10 + k;
+            let mut r = ReqSpec::get(id, "c1.test", &format!("/r/{id}"));
+            r.headers.push(("Content-Length".into(), "0".into()));
+            vresponses.insert(id, RespSpec::ok(BodySpec::Cl(100 + rng.below(3000) as usize)));
+            clients.push(ClientPlan {
+                name: format!("rec{k}"), src: format!("192.0.2.{}:{}", 60 + k, 43001 + k).parse().unwrap(), dst: front, start_ns: at, pace: Pace::greedy(), pipeline: false,
+                requests: vec![r], abort: None, sndbuf: None, think_ns: 0, linger_ns: 0, give_up_ns: 30 * SEC, wait_board: None,
+            });
+            // the next one within a second of this one's successful connect
+            at += (100 + rng.below(500)) * MS;
+        }
+    }
     // KeepAliveClose: a first request to cv whose response is followed by a silent close
     if cause == Cause::KeepAliveClose {
         let pid = vid + 1;
@@ -170,10 +200,10 @@ pub fn generate(seed: u64, tier: Tier, forced: Option<(Cause, BodySpec)>) -> Pla
     let mut clusters = vec![ClusterPlan { id: "c0".into(), host: "c0.test".into(), backends: vec![(b0, BackendMode::Listen { delay_ns: 0 })] }];
     let mut vb = Vec::new();
     for i in 0..vbackends {
-        vb.push((BackendPlan { name: format!("bv{i}"), addr: format!("10.2.0.{}:8000", i + 1).parse().unwrap(), pace: Pace::random_budget(&mut rng, resp_len + 42000, 200_000_000), responses: vresponses.clone(), default: RespSpec::ok(BodySpec::Cl(3)), close_on_accept: close_on_accept.clone(), listen_from_ns: 0, listen_until_ns: 0 }, vmode.clone()));
+        vb.push((BackendPlan { name: format!("bv{i}"), addr: format!("10.2.0.{}:8000", i + 1).parse().unwrap(), pace: Pace::random_budget(&mut rng, resp_len + 42000, 200_000_000), responses: vresponses.clone(), default: RespSpec::ok(BodySpec::Cl(3)), close_on_accept: close_on_accept.clone(), listen_from_ns: listen_from, listen_until_ns: 0 }, vmode.clone()));
     }
     clusters.push(ClusterPlan { id: "cv".into(), host: VHOST.into(), backends: vb });
-    let name = match &cause { Cause::CloseAt(k) => if *k == 0 { "close_before_answer".to_string() } else if *k < head_len { "close_mid_head".into() } else { "close_mid_body".into() }, Cause::StallAt(k) => if *k == 0 { "stall_before_answer".into() } else { "stall_mid_body".into() }, Cause::ClientStall(_) => "client_stall".into(), Cause::SlowAnswer(_) => "slow_answer".into(), c => format!("{c:?}").to_lowercase() };
+    let name = match &cause { Cause::CloseAt(k) => if *k == 0 { "close_before_answer".to_string() } else if *k < head_len { "close_mid_head".into() } else { "close_mid_body".into() }, Cause::StallAt(k) => if *k == 0 { "stall_before_answer".into() } else { "stall_mid_body".into() }, Cause::ClientStall(_) => "client_stall".into(), Cause::SlowAnswer(_) => "slow_answer".into(), Cause::Recovers(_) => "backend_recovers".into(), c => format!("{c:?}").to_lowercase() };
     let http = HttpPlan {
         seed, family: format!("h1h1_{name}{}", if faulty { "+buggify" } else { "" }), knobs, sched: netsim::default_sched(&mut rng, faulty), front, clusters, clients,
         sndbufs: if rng.below(3) == 0 { Some(vec![0, 4608, 9216, 32768]) } else { None }, settle_ns: 0, extra_frontends,
@@ -189,7 +219,7 @@ pub fn oracle(p: &Plan, o: &HttpOutcome) -> Vec<Violation> {
     let pre_victim_kac = if p.cause == Cause::KeepAliveClose { 1 } else { 0 };
     let mut v = c01::oracle_filtered(&p.http, o, &|ci, ri| ci == vc && ri + pre_victim_kac >= vr);
     let oc = &o.clients[vc];
-    let cname = match &p.cause { Cause::CloseAt(k) => if *k == 0 { "close_before_answer".to_string() } else if *k < p.head_len { "close_mid_head".into() } else { "close_mid_body".into() }, Cause::StallAt(k) => if *k == 0 { "stall_before_answer".into() } else { "stall_mid_body".into() }, Cause::ClientStall(_) => "client_stall".into(), Cause::SlowAnswer(_) => "slow_answer".into(), c => format!("{c:?}").to_lowercase() };
+    let cname = match &p.cause { Cause::CloseAt(k) => if *k == 0 { "close_before_answer".to_string() } else if *k < p.head_len { "close_mid_head".into() } else { "close_mid_body".into() }, Cause::StallAt(k) => if *k == 0 { "stall_before_answer".into() } else { "stall_mid_body".into() }, Cause::ClientStall(_) => "client_stall".into(), Cause::SlowAnswer(_) => "slow_answer".into(), Cause::Recovers(_) => "backend_recovers".into(), c => format!("{c:?}").to_lowercase() };
     let key = |sym: &str| format!("{sym}|cause={cname}");
     let vreq = &p.http.clients[vc].requests[vr];
     let vid = vreq.id;
@@ -227,7 +257,7 @@ pub fn oracle(p: &Plan, o: &HttpOutcome) -> Vec<Violation> {
     match &p.cause {
         Cause::NoRoute => expect_status(&[404], &mut v),
         Cause::Denied => expect_status(&[401], &mut v),
-        Cause::NoBackend | Cause::AllRefuse => expect_status(&[503], &mut v),
+        Cause::NoBackend | Cause::AllRefuse | Cause::Recovers(_) => expect_status(&[503], &mut v),
         // connect attempts time out: "no usable backend" and "backend timeout" are both true
         Cause::Blackhole => expect_status(&[503, 504], &mut v),
         Cause::CloseOnAccept => expect_status(&[502, 503], &mut v),
